@@ -1,4 +1,5 @@
 import XrsVerif.Proofs.ZonalReduce
+import XrsVerif.Proofs.ZonalLoop
 import XrsVerif.Gen.Zonal
 /-
   C02 -- Zonal statistics summarise exactly the valid cells of each zone.
@@ -26,6 +27,26 @@ variable {κ ν ρ : Type} [LinearOrder κ]
 
 /-- the source fact the theorems below rest on (fails to check on a tree with defect D1) -/
 theorem strip_fact : Gen.Zonal.stripIndices = true := rfl
+
+/-! ### `_strides`: the generated loop program is the model
+
+  `Gen.Zonal.stridesProg` is `_strides` translated statement by statement from the current source into the
+  loop language of Model/ZonalLoop.lean (assignments, `for .. in range`, `while`, array reads, one output
+  array).  `strides_prog_fact`: it is the program the proofs are about (`stridesSrc`, the normal form of the
+  loop in /repo).  `gen_strides_eq_model`: run on any two arrays it returns exactly the breaks of the hand
+  model `strides` every theorem below is stated with -- so an edit of the loop (start value, bound test,
+  comparison, increment, where the break is stored) changes this obligation. -/
+
+theorem strides_prog_fact : Gen.Zonal.stridesProg = stridesSrc := rfl
+
+theorem gen_strides_eq_model {α : Type} [DecidableEq α] (fz uz : List α) (fuel : Nat) (hf : fz.length < fuel) :
+    Gen.Zonal.stridesProg.run (stridesArrs fz uz) fuel = strides fz 0 uz := by
+  rw [strides_prog_fact]
+  exact stridesSrc_run fz uz fuel hf
+
+/-- a concrete instance: `_strides([1,1,2,2,2,5], [1,2,3,5]) = [2,5,5,6]` (fuel 7 > 6 elements) -/
+example : Gen.Zonal.stridesProg.run (stridesArrs [1, 1, 2, 2, 2, 5] [1, 2, 3, 5]) 7 = [2, 5, 5, 6] := by
+  rw [gen_strides_eq_model _ _ _ (by decide)]; decide
 
 /-- **rows**: one row per distinct finite zone id present among the cells, ascending, restricted
     to the requested ids that exist -/
@@ -176,6 +197,17 @@ theorem builtin_meaning (sqrt : F → F) (l : List F) (hl : l ≠ []) :
 theorem valid_iff (nodata : Option (X F)) (v : X F) :
     validX nodata v = true ↔ ∃ q, v = .fin q ∧ nodata ≠ some (.fin q) := by
   cases v <;> simp [validX]
+
+/-- **the filter of `_calc_stats` is that predicate**: the boolean mask the source selects the zone's values
+    with (`Gen.Zonal.maskCalcStats`, translated by harness/facts_zonal.py from the current `_calc_stats`),
+    read with NumPy's elementwise / IEEE semantics, keeps exactly the values that are finite and not equal to
+    `nodata_values` -- for every value (NaN, +-inf, finite) and every nodata (`None`, NaN, +-inf, finite).
+    A tolerant comparison (`np.isclose`), a dropped conjunct or a `>` in place of `!=` is not this predicate:
+    the generated mask changes (or is `unknown`) and this theorem does not check. -/
+theorem calc_stats_mask_fact (nodata : Option (X F)) (v : X F) :
+    Gen.Zonal.maskCalcStats.eval nodata v = validX nodata v := by
+  rcases nodata with _ | (_ | _ | _ | _) <;> cases v <;>
+    (try simp [Gen.Zonal.maskCalcStats, MExpr.eval, validX, ieeeEq, X.isFin]) <;> (try exact eq_comm)
 
 end builtin
 
